@@ -919,6 +919,16 @@ func (fx *FuncExec) checkGuard(st *State, addr Val, pos token.Pos, rw string) {
 		return
 	}
 	ts := fx.V.contracts.Types[typeKey(l.Owner)]
+	if ts != nil && len(ts.Atomic) > 0 && !fx.freshRefs[l.Ref] {
+		an := l.OwnerS.Field(l.Field).Name()
+		for _, a := range ts.Atomic {
+			if a == an {
+				// a field declared `atomic` is only ever touched through sync/atomic (those are
+				// calls taking its address, not loads/stores)
+				fx.oblige("guard", st, "false", fmt.Sprintf("plain %s of %s.%s, which is declared atomic (sync/atomic only)", rw, ts.Name, an), pos)
+			}
+		}
+	}
 	if ts == nil || ts.GuardedBy == "" {
 		return
 	}
